@@ -260,6 +260,11 @@ func (c40) Run(s *scn.Scn, x *sim.Exec) {
 	// (c) the real plugin binary in fresh processes
 	if plugin := os.Getenv("PBSIM_PLUGIN"); plugin != "" {
 		wire, _ := proto.Marshal(req)
+		// Runs of the plugin binary are compared with each other, not with the
+		// in-process reference: the two are different binaries, and prototext
+		// output (the .meta files of annotate_code) deliberately varies between
+		// binaries (internal/detrand), which is not what the property is about.
+		var childRef []byte
 		for i := int64(0); i < s.P["children"]; i++ {
 			ms := sim.Mix(uint64(s.P["perm"]), 1000+uint64(i)) | 1
 			cmd := exec.Command(plugin)
@@ -279,8 +284,12 @@ func (c40) Run(s *scn.Scn, x *sim.Exec) {
 				return
 			}
 			b, _ := proto.MarshalOptions{Deterministic: true}.Marshal(resp)
-			if !bytes.Equal(ref, b) {
-				x.Fail("response-differs-across-processes", "CodeGeneratorResponse of a fresh protoc-gen-go process (map seed %d) differs from the in-process reference for files %v (parameter %q): %s", ms, files, s.Mode, c40Diff(ref, b))
+			if childRef == nil {
+				childRef = b
+				continue
+			}
+			if !bytes.Equal(childRef, b) {
+				x.Fail("response-differs-across-processes", "CodeGeneratorResponse of two fresh protoc-gen-go processes (second with map seed %d) differ for files %v (parameter %q): %s", ms, files, s.Mode, c40Diff(childRef, b))
 				return
 			}
 		}
